@@ -69,6 +69,10 @@ CLAIMED = {
   "Symbolic equality checks over the real scorers with float arithmetic uninterpreted (so a proved equality holds for every interpretation of + - * / log, IEEE-754 included): BM25Scorer.Explain(...).Value is bit-for-bit Score(...) for all statistics, boost, k1, b, freq and norm; the idf node carries Idf(n,N) and the tree has the documented children; Score is a pure function; CompositeSumScorer: score = (sum of parts in order) * boost, explanation value = score, every node of the explanation tree is sum / boost*sum of its children; through the real conjunction, disjunction and boolean searchers the score with explanations equals the explanation's value and the score without explanations. Counterexamples are confirmed natively (several solver models are tried, since uninterpreted arithmetic can produce natively-equal witnesses).",
   "Partial claim. Decided: 'explanation value equals the score returned without it', 'a compound query scores the sum of its matching parts times its own boost', explanation tree structure. NOT decided by this technique and outside the claim: finite/positive scores and the monotonicity laws in float64 (FP division/log are beyond the solvers here), and 'each node's value equals the formula stated in its message' for the tf/idf/score nodes (algebraic identities over the reals; would need a real-arithmetic reading of the SSA that is not built — note the idf node of the pinned tree computes log(1 + (N-n) + 0.5/(n+0.5)) while its message states log(1 + (N-n+0.5)/(n+0.5)), see DESIGN.md observations).",
   "DESIGN.md section 5 C17"),
+ "C16": (
+  "Bounded symbolic model checking of the real collector/aggregation path (TopNCollector.Collect/collectSingle, search.Bucket.Consume/Finish, SingleValueCalculator for count/sum/min/max, WeightedAvgCalculator, TermsCalculator.Consume/Finish/Less/Swap with sort.Sort from source, RangeCalculator): for every set of k matches with arbitrary sort keys, values, weights and keywords, every size n, offset, direction and search-after key, count = number of matches, sum/avg/weighted avg = the reference fold in hit order, min/max = reference, terms bucket = direct count with nested metric and remainder accounting for every match, numeric range buckets = direct counting.",
+  "Bounds: k <= 2 matches with all paging settings, k = 3 with n = 1 (thorough 3 / 4), <= 2 values per hit. Value sources are harness types (reading real doc values is C10). Float + and * uninterpreted, comparisons exact. Outside: cardinality (hyperloglog) and quantile (t-digest) sketches' estimates and monotonicity (third-party float code; they are fed through the same Consume path), date ranges (same code shape as numeric ranges), nesting depth 2, multi-valued terms remainders (the property's statement restricts the remainder clause to single-valued fields).",
+  "DESIGN.md section 5 C16"),
 }
 
 NA = {
